@@ -119,7 +119,11 @@ func (c07) Run(t *tape.Tape, st *Stats) *Violation {
 		cfgFault = t.Intn(5)
 		faultOff = t.Intn(len(in.Data) + 1)
 	} else {
-		in = DrawInput(t, c07weights, []int{1, 300, 5000, 70000})
+		sizes := []int{1, 300, 5000, 70000}
+		if t.Chance(1, 150) {
+			sizes = []int{1<<20 + 4096, 2<<20 + 1} // more than a megabyte consumed before the loader is done
+		}
+		in = DrawInput(t, c07weights, sizes)
 		loader = Loaders[t.Intn(len(Loaders))]
 		cfgFault = t.Pick(3, 2, 2, 2, 2, 1)
 		switch t.Pick(2, 1, 1) {
